@@ -52,9 +52,14 @@ func modePair(i int) (ms, mo dstMode, hiIn, hiOut bool) {
 	return
 }
 
-// one runs a seal/open case for spec s on fresh random key, nonce, data.
+// one runs a seal/open case for spec s on fresh random key, nonce, data, with the
+// dst modes and placements of position i of the cycle.
 func one(x *mon.Ctx, ar *arena, part string, s spec, n, al, i int) {
 	ms, mo, hiIn, hiOut := modePair(i)
+	oneModes(x, ar, part, s, n, al, ms, mo, hiIn, hiOut)
+}
+
+func oneModes(x *mon.Ctx, ar *arena, part string, s spec, n, al int, ms, mo dstMode, hiIn, hiOut bool) {
 	c := x.Begin("%s %v pt=%d aad=%d seal-dst=%v open-dst=%v inputs-hi=%v outputs-hi=%v", part, s, n, al, ms, mo, hiIn, hiOut)
 	if c == nil {
 		return
@@ -124,6 +129,22 @@ func gcmGrid(x *mon.Ctx) {
 		for r := 0; r < 20*reps; r++ {
 			one(x, ar, "tag-size", gcmSpec("lib", 12, ts), ptCycle[i%len(ptCycle)], aadCycle[(i/3)%len(aadCycle)], i)
 			i++
+		}
+	}
+	// D2: truncated tags x final partial block of r bytes with r + tag < 16 (and the first residue that is safe):
+	// the assembly touches a whole block at the final partial block, which then reaches behind ciphertext||tag.
+	// Deterministic placements: ciphertext||tag of Open and the destination of Seal end exactly at a guard page
+	// (fault on the first stray byte) or are followed by a fence (stray store visible).
+	for ts := 12; ts <= 15; ts++ {
+		for _, q := range []int{0, 1, 4, 8, 9} {
+			for r := 1; r <= 16-ts; r++ {
+				n, s := 16*q+r, gcmSpec("lib", 12, ts)
+				al := aadCycle[(q+r)%len(aadCycle)]
+				oneModes(x, ar, "short-tag", s, n, al, dExact, dExact, true, true)         // Seal dst and Open input end at the guard page
+				oneModes(x, ar, "short-tag", s, n, al, dExact, dInPlaceTight, true, false) // Seal dst followed by a fence; Open in place, buffer ends at the guard page
+				oneModes(x, ar, "short-tag", s, n, al, dSpare, dNil, false, true)          // Seal into spare capacity; Open input ends at the guard page
+				oneModes(x, ar, "short-tag", s, n, al, dInPlaceTight, dSpare, false, true) // Seal in place, buffer ends at the guard page
+			}
 		}
 	}
 	// E: long messages (many iterations of the 8-block loops), long aad
@@ -330,9 +351,10 @@ func tamper(x *mon.Ctx) {
 		jobs = append(jobs, job{gcmSpec("lib", ns, 16), short})
 	}
 	for ts := 12; ts <= 15; ts++ {
-		l := short
+		// final partial blocks of 1..3 bytes: a whole-block access there reaches behind a truncated tag
+		l := append([]int{2, 3, 18, 19, 131, 258}, short...)
 		if ts == 12 {
-			l = full
+			l = append([]int{3, 18, 19, 131, 258}, full...)
 		}
 		jobs = append(jobs, job{gcmSpec("lib", 12, ts), l})
 	}
@@ -397,5 +419,15 @@ func tamperCase(x *mon.Ctx, ar *arena, s spec, n, al, stride int) {
 	}
 	c.Event("tamper_messages", 1)
 	c.Event(fmt.Sprintf("impl %T", a), 1)
-	tamperSweep(c, ar, s, a, nonce, want, ad, pt, stride)
+	enc := aead.SM4(key)
+	refAccepts := func(n, m, d []byte) bool {
+		ok := false
+		if s.fam == "gcm" {
+			_, ok = aead.GCMOpen(enc, n, m, d, s.ts)
+		} else {
+			_, ok = aead.CCMOpen(enc, n, m, d, s.ts)
+		}
+		return ok
+	}
+	tamperSweep(c, ar, s, a, refAccepts, nonce, want, ad, pt, stride)
 }
